@@ -84,6 +84,17 @@ for size in burst:
     y = channel.receive()
     seen.append((len(y), hashlib.sha1(y).hexdigest()))
 channel.send(seen)
+# several sub-channels filled concurrently from several threads of the initiator
+npar, nper = channel.receive()
+pars = [channel.gateway.newchannel() for i in range(npar)]
+channel.send(pars)
+plog = []
+for c in pars:
+    seen = []
+    for x in c:
+        seen.append((len(x), hashlib.sha1(x).hexdigest()))
+    plog.append(seen)
+channel.send(plog)
 sub = channel.gateway.newchannel()
 channel.send(sub)
 got = []
@@ -126,6 +137,23 @@ def run_bulk(gw, rng, maxsize):
         ch.send(bytes([size % 199]) * size)
     tr.append(("burst-out", [tuple(x) for x in ch.receive(60)]))
     nbytes += 2 * sum(burst)
+    npar, nper = rng.choice((2, 3)), rng.choice((2, 4))
+    ch.send((npar, nper))
+    pars = ch.receive(60)
+    psize = rng.choice((70000, 300000, min(maxsize, 1 << 20)))
+
+    def psend(t):
+        for s in range(nper):
+            pars[t].send(bytes([65 + t]) * (psize + s))
+        pars[t].close()
+
+    pths = [threading.Thread(target=psend, args=(t,), daemon=True) for t in range(npar)]
+    for t in pths:
+        t.start()
+    for t in pths:
+        t.join(60)
+    tr.append(("parallel", [[tuple(x) for x in seen] for seen in ch.receive(60)]))
+    nbytes += npar * nper * psize
     sub = ch.receive(60)
     k = rng.choice((0, 3, 40))
     for i in range(k):
@@ -147,6 +175,7 @@ def run_bulk(gw, rng, maxsize):
     want = [(len(x), hashlib.sha1(x).hexdigest(), hashlib.sha1(x[::-1]).hexdigest(), len(x)) for x in items]
     want.append(("burst-in", [(sz, hashlib.sha1(bytes([sz % 251]) * sz).hexdigest()) for sz in burst]))
     want.append(("burst-out", [(sz, hashlib.sha1(bytes([sz % 199]) * sz).hexdigest()) for sz in burst]))
+    want.append(("parallel", [[(psize + s, hashlib.sha1(bytes([65 + t]) * (psize + s)).hexdigest()) for s in range(nper)] for t in range(npar)]))
     want.append(("callback-log", [("cb", i) for i in range(k)] + ["<end>"]))
     want += [("RemoteError", True, True), "EOF"]
     return tr, want, nbytes
@@ -237,13 +266,33 @@ def run_config(spec):
             res.violation(f"worker-execmodel-wrong:{label}", st.execmodel)
         seed = core.case_seed("C16", spec["tier"], spec["seed"])  # the SAME programs on every configuration
         trs = run_programs_on(res, gw, seed, spec["n"], label, big)
+        if not gw.hasreceiver():
+            res.violation(f"gateway-lost:{label}", "")
+        # gateway.exit() while a remote task is still running: what it sends afterwards is still delivered, then EOF
+        late = gw.remote_exec("import time\nsub = channel.gateway.newchannel()\nchannel.send(sub)\ntime.sleep(0.3)\n"
+                              "for i in range(3):\n    sub.send(('late-sub', i))\nchannel.send('late-item')\nchannel.send('bye')\n")
+        lsub = late.receive(30)
+        gw.exit()
+        drained = []
+        for c in (late, lsub):
+            part = []
+            try:
+                while True:
+                    part.append(c.receive(20))
+            except EOFError:
+                part.append("EOF")
+            except BaseException as e:  # noqa
+                part.append(type(e).__name__)
+            drained.append(part)
+        want_late = [["late-item", "bye", "EOF"], [("late-sub", 0), ("late-sub", 1), ("late-sub", 2), "EOF"]]
+        if drained != want_late:
+            res.violation(f"items-sent-after-exit-request-lost:{label}", f"{drained} != {want_late}")
+        trs.append(drained)
         res.count("configs")
         res.case(core.h64("config", label))
         res.case(core.h64("config-programs", label, spec["n"]))
         res.info.setdefault("transcript_digests", {})[label] = core.h64(repr(trs))
         res.sample({"config": label, "programs": spec["n"], "transcript_digest": core.h64(repr(trs))})
-        if not gw.hasreceiver():
-            res.violation(f"gateway-lost:{label}", "")
     except BaseException as e:
         res.violation(f"config-run-raised:{label}:{type(e).__name__}", str(e)[-300:])
     finally:
